@@ -734,7 +734,35 @@ func ruleC04_8(c *Ctx, r *Rep) {
 	if f == nil {
 		return
 	}
-	sts := fieldStores(f, modPath+"/actions", "MessageStreamRequest")["DelaySeconds"]
+	// a modify-deadline id is a deadline change, whatever its value: the ids go to the delay action (which makes a
+	// zero deadline due at once and wakes the subscription) — never to the nack queue, whose action reschedules by
+	// the retry backoff and wakes nobody
+	all := fieldStores(f, modPath+"/actions", "MessageStreamRequest")
+	nackFromModify := token.NoPos
+	fromModify := func(v ssa.Value) bool {
+		if sources(v)["field:ModifyDeadlineAckIds"] {
+			return true
+		}
+		for x := range valueClosure([]ssa.Value{v}) {
+			if fa, ok := x.(*ssa.FieldAddr); ok && fieldName(fa.X.Type(), fa.Field) == "ModifyDeadlineAckIds" {
+				return true
+			}
+		}
+		return false
+	}
+	for _, st := range all["Nack"] {
+		if fromModify(st.Val) {
+			nackFromModify = st.Pos()
+		}
+	}
+	delayFromModify := false
+	for _, st := range all["Delay"] {
+		if fromModify(st.Val) {
+			delayFromModify = true
+		}
+	}
+	r.Check("C04.8", "C04.8:modify-deadline-ids-are-delays", nackFromModify, !nackFromModify.IsValid() && delayFromModify, "", "modify-deadline ids of a stream request are (also) routed to the nack queue, or not handed to the delay action: a zero deadline sent on the stream is rescheduled by the retry backoff instead of becoming redeliverable at once")
+	sts := all["DelaySeconds"]
 	if len(sts) == 0 {
 		r.Fail("C04.8", "C04.8:stream-delay", f.Pos(), "the stream adapter no longer sets DelaySeconds")
 		return
@@ -1722,4 +1750,408 @@ func ruleC12_2classifier(c *Ctx, r *Rep) {
 	}
 	r.Check("C12.2", "C12.2:classifier-postgres@"+c.Key(fn), fn.Pos(), pg, "errors.As(*pgconn.PgError) ∧ Code == \"23505\" → true", "PostgreSQL's unique_violation (SQLSTATE 23505) is not recognised as a duplicate key: the loser of a create race gets Unknown instead of AlreadyExists")
 	r.Check("C12.2", "C12.2:classifier-sqlite@"+c.Key(fn), fn.Pos(), lite, "", "the SQLite sibling's verdict is not consulted")
+}
+
+// ---------------------------------------------------------------------------
+// C08.8 (shared with C07): the filter parser is built with exactly the options the grammar was written for — a
+// lookahead bound and unquoting of String tokens. Every other participle option changes the accepted language or the
+// captured text behind the grammar's back: CaseInsensitive("Ident") makes `Attributes:x` and `hasprefix(...)`
+// sentences (stored, and then never matching), Map(...) rewrites tokens (attribute names that spell a keyword),
+// Elide / Upper / custom lexers likewise. Module-wide: any call of a participle function that returns an Option.
+func ruleC08_8(c *Ctx, r *Rep) {
+	n, nUnq, nLook := 0, 0, 0
+	// package initialisers hold the option list (`var DefaultParserOptions = []participle.Option{…}`)
+	fns := append([]*ssa.Function{}, c.Funcs...)
+	for path, sp := range c.SSAPkg {
+		if strings.HasPrefix(path, modPath) {
+			if ini := sp.Func("init"); ini != nil {
+				fns = append(fns, ini)
+			}
+		}
+	}
+	for _, f := range fns {
+		if c.testSupport(f) {
+			continue
+		}
+		for _, b := range f.Blocks {
+			for _, in := range b.Instrs {
+				call, ok := in.(*ssa.Call)
+				if !ok {
+					continue
+				}
+				cal := call.Call.StaticCallee()
+				if cal == nil || !strings.Contains(fnPkgPath(cal), "alecthomas/participle") || cal.Signature.Results().Len() != 1 {
+					continue
+				}
+				if nm := namedOf(cal.Signature.Results().At(0).Type()); nm == nil || nm.Obj().Name() != "Option" {
+					continue
+				}
+				n++
+				name := cal.Name()
+				if o := cal.Origin(); o != nil {
+					name = o.Name()
+				}
+				okOpt := false
+				switch name {
+				case "UseLookahead":
+					okOpt = true
+					nLook++
+				case "Unquote":
+					okOpt = len(call.Call.Args) == 1
+					if okOpt {
+						// variadic: the slice literal holds exactly "String"
+						vs, all := variadicStringConsts(call.Call.Args[0])
+						okOpt = all && len(vs) == 1 && vs[0] == "String"
+					}
+					if okOpt {
+						nUnq++
+					}
+				}
+				r.Check("C08.8", fmt.Sprintf("C08.8:parser-option:%s@%s", name, c.Key(top(f))), call.Pos(), okOpt, "", "the filter parser is built with participle."+name+": an option other than UseLookahead / Unquote(\"String\") changes the accepted language or the captured tokens behind the grammar (mis-cased keywords accepted and stored, attribute names rewritten)")
+			}
+		}
+	}
+	r.Check("C08.8", "C08.8:parser-options-present", token.NoPos, nUnq >= 1 && nLook >= 1, fmt.Sprintf("%d option constructors (UseLookahead ×%d, Unquote(String) ×%d)", n, nLook, nUnq), "the parser is no longer built with UseLookahead and Unquote(\"String\") (quoted values would keep their quotes / long filters fail to parse)")
+}
+
+// variadicStringConsts: the constant strings of a variadic argument built at the call site (`f("a", "b")`), and
+// whether every element is a constant.
+func variadicStringConsts(v ssa.Value) ([]string, bool) {
+	sl, ok := v.(*ssa.Slice)
+	if !ok {
+		return nil, false
+	}
+	al, ok := sl.X.(*ssa.Alloc)
+	if !ok || al.Referrers() == nil {
+		return nil, false
+	}
+	var out []string
+	all := true
+	for _, u := range *al.Referrers() {
+		ia, ok := u.(*ssa.IndexAddr)
+		if !ok || ia.Referrers() == nil {
+			continue
+		}
+		for _, w := range *ia.Referrers() {
+			if st, ok := w.(*ssa.Store); ok {
+				if s, isS := constString(st.Val); isS {
+					out = append(out, s)
+				} else {
+					all = false
+				}
+			}
+		}
+	}
+	return out, all
+}
+
+// ---------------------------------------------------------------------------
+// C14.6: wherever a subscription's expires_at is written, it is now + the subscription's expiration TTL — derived from
+// the TTL (the row's, the request's expiration policy, or the default) and from nothing that is the message
+// retention. (One scratch variable shared by the two mask paths of UpdateSubscription stores the right ttl and the
+// wrong deadline: the subscription is swept after the retention period although its TTL has not passed.)
+func ruleC14_6(c *Ctx, r *Rep) {
+	keys := c.stmtKeys()
+	n := 0
+	for _, s := range c.EntShape().Stmts {
+		if s.Table != "subscriptions" || (s.Kind != "update" && s.Kind != "create") || c.testSupport(s.Fn) {
+			continue
+		}
+		for _, m := range s.Mut("expires_at", "set") {
+			if m.Arg == nil {
+				continue
+			}
+			n++
+			src := sources(m.Arg)
+			ttl, retention := false, false
+			for k := range src {
+				lk := strings.ToLower(k)
+				if strings.HasSuffix(lk, "messagettl") || strings.Contains(lk, "messageretention") || strings.HasSuffix(lk, "message_ttl") {
+					retention = true
+				} else if strings.HasSuffix(lk, "ttl") || strings.Contains(lk, "expirationpolicy") {
+					ttl = true
+				}
+			}
+			r.Check("C14.6", "C14.6:expiry-from-ttl:"+keys[s], m.Pos, src["call:Now"] && ttl && !retention, "expires_at = now + expiration TTL", fmt.Sprintf("the subscription's expires_at is not computed as now + its expiration TTL alone (from-now=%v from-ttl=%v mixes-in-message-retention=%v): the expiry sweep removes a subscription whose TTL has not passed (or keeps it too long)", src["call:Now"], ttl, retention))
+		}
+	}
+	r.Floor("C14.6", n, 3)
+}
+
+// ---------------------------------------------------------------------------
+// C03.6: every StreamingPull frame reaches the streamer through adaptIn — the opening request included (the API lets
+// it carry ack ids and deadline changes for messages received on an earlier stream). A request struct built any
+// other way drops the frame's acks silently: the stream carries on, the acked messages are redelivered.
+func ruleC03_6(c *Ctx, r *Rep) {
+	fn := r.Anchor("C03.6", "(*services.streamWrapper).Receive")
+	if fn == nil {
+		return
+	}
+	n := 0
+	for _, f := range c.opFuncs(fn) {
+		if f != fn && f.Parent() == nil {
+			continue // helpers are judged through what Receive returns
+		}
+		if f != fn {
+			continue
+		}
+		for _, ret := range returnsOf(f) {
+			if len(ret.Results) != 2 {
+				continue
+			}
+			v := retResult(ret, 0)
+			if isNilConst(v) {
+				continue
+			}
+			n++
+			r.Check("C03.6", fmt.Sprintf("C03.6:frame-through-adaptIn#%d@%s", n, c.Key(fn)), ret.Pos(), sources(v)["call:adaptIn"], "", "Receive hands the streamer a request that was not produced by adaptIn from the received frame: ack ids and deadline changes carried by that frame (the opening request may carry them) are dropped silently and the acked messages are redelivered")
+		}
+	}
+	r.Floor("C03.6", n, 2)
+	// and adaptIn converts the frame's ack ids (C03.5 judges how)
+	if ad := r.Anchor("C03.6", "(*services.streamWrapper).adaptIn"); ad != nil {
+		st := fieldStores(ad, modPath+"/actions", "MessageStreamRequest")
+		okAck := false
+		for _, s := range st["Ack"] {
+			if sources(s.Val)["field:AckIds"] {
+				okAck = true
+			}
+		}
+		r.Check("C03.6", "C03.6:adaptIn-acks", ad.Pos(), okAck, "", "adaptIn does not hand on the frame's ack ids")
+	}
+}
+
+// ---------------------------------------------------------------------------
+// C17.2 (paths verbatim): the strings the update handlers switch on are the mask's own paths, unaltered. A helper
+// that normalises them first (cutting `retry_policy.minimum_backoff` to `retry_policy`, lower-casing, de-duplicating
+// by prefix) makes a request that names one member replace the whole block — fields the mask does not name change.
+func ruleC17_2verbatim(c *Ctx, r *Rep) {
+	for _, hk := range []string{"(*services.subscriberServer).UpdateSubscription", "(*services.publisherServer).UpdateTopic"} {
+		h := r.Anchor("C17.2", hk)
+		if h == nil {
+			continue
+		}
+		n := 0
+		bad := ""
+		var pos token.Pos = h.Pos()
+		var fns []*ssa.Function
+		seenF := map[*ssa.Function]bool{}
+		var addF func(f *ssa.Function)
+		addF = func(f *ssa.Function) {
+			if seenF[f] {
+				return
+			}
+			seenF[f] = true
+			fns = append(fns, f)
+			for _, a := range f.AnonFuncs {
+				addF(a)
+			}
+		}
+		for _, f := range c.opFuncs(h) {
+			addF(f)
+		}
+		addF(h)
+		for _, f := range fns {
+			for _, b := range f.Blocks {
+				if len(b.Instrs) == 0 {
+					continue
+				}
+				iff, isIf := b.Instrs[len(b.Instrs)-1].(*ssa.If)
+				if !isIf {
+					continue
+				}
+				bo, isB := iff.Cond.(*ssa.BinOp)
+				if !isB || bo.Op != token.EQL {
+					continue
+				}
+				if _, isS := constString(bo.Y); !isS {
+					continue
+				}
+				src := sources(bo.X)
+				if !src["call:GetPaths"] && !src["field:Paths"] {
+					continue
+				}
+				n++
+				for k := range src {
+					if !strings.HasPrefix(k, "call:") {
+						continue
+					}
+					name := strings.TrimPrefix(k, "call:")
+					if i := strings.Index(name, "@"); i >= 0 {
+						name = name[:i]
+					}
+					if in(name, "GetPaths", "GetUpdateMask") {
+						continue
+					}
+					// the module's own helpers are looked through (their callees are in the slice as well)
+					isHelper := false
+					for _, g := range c.Funcs {
+						if g.Name() == name && c.inModule(g) && g.Object() != nil && !g.Object().Exported() {
+							isHelper = true
+							// a pass-through helper only: it may fetch the paths, not compute new strings
+							for _, ci := range callsIn(g, true, func(cal *ssa.Function, _ ssa.CallInstruction) bool { return true }) {
+								if cal := ci.Common().StaticCallee(); cal != nil && !in(cal.Name(), "GetPaths", "GetUpdateMask") {
+									bad, pos = name+" → "+cal.Name(), bo.Pos()
+								}
+							}
+						}
+					}
+					if !isHelper {
+						bad, pos = name, bo.Pos()
+					}
+				}
+			}
+		}
+		if n == 0 {
+			r.Undecided("C17.2", "C17.2:paths-verbatim@"+hk, h.Pos(), "no comparison of a mask path with a constant found")
+			continue
+		}
+		r.Check("C17.2", "C17.2:paths-verbatim@"+hk, pos, bad == "", fmt.Sprintf("%d path comparisons on the mask's own strings", n), "the handler switches on mask paths that went through "+bad+" first: a normalised path (nested member cut to its parent, case folded) makes an update replace fields its mask does not name")
+	}
+}
+
+// C17.4 (shared with C06, C12): a subscription is pointed at a dead-letter topic only by the result of a lookup made
+// for that purpose (the statement's own `name = … AND deleted_at IS NULL`, see C12.1) — never by an entity that came
+// along as a cached edge: the eager-loaded edge is not filtered on deletion and names are unique among live topics
+// only, so after delete + re-create the row keeps pointing at the dead predecessor.
+func ruleC17_4(c *Ctx, r *Rep) {
+	n := 0
+	keys := c.stmtKeys()
+	for _, s := range c.EntShape().Stmts {
+		if s.Table != "subscriptions" || (s.Kind != "update" && s.Kind != "create") || c.testSupport(s.Fn) {
+			continue
+		}
+		for _, m := range s.Mut("dead_letter_topic_id", "set") {
+			if m.Arg == nil {
+				continue
+			}
+			n++
+			ok := true
+			for _, alt := range valueAlternatives(m.Arg) {
+				src := sources(alt.v)
+				looked := src["call:Only"] || src["call:First"] || src["call:Get"]
+				if !looked || src["field:Edges"] {
+					ok = false
+				}
+			}
+			r.Check("C17.4", "C17.4:dead-letter-topic-from-live-lookup:"+keys[s], m.Pos, ok, "", "the dead-letter topic stored on the subscription can be an entity that was not looked up for this request (a cached edge of the loaded subscription): it may be a soft-deleted topic of the same name — Get then reports _deleted-topic_ and nothing is forwarded")
+		}
+	}
+	r.Floor("C17.4", n, 2)
+}
+
+// ---------------------------------------------------------------------------
+// C10.8: a change made here is announced to the other instances too. The Wake*Listeners functions take
+// onlyInternal: true is for events RECEIVED from the PostgreSQL notifier (re-broadcasting them would loop); every
+// originating site passes false, so that the registered hooks (the LISTEN/NOTIFY bridge) hear of it. The one
+// originating `true` is the publish wake-up that accompanies a subscription-modified event already sent with false
+// for the same id. With true at an originating site, a puller waiting in another instance is never woken.
+func ruleC10_8(c *Ctx, r *Rep) {
+	n := 0
+	isWake := func(cal *ssa.Function) bool {
+		return cal != nil && fnPkgPath(cal) == modPath+"/actions" && in(cal.Name(), "WakePublishListeners", "WakeTopicListeners", "WakeSubscriptionListeners")
+	}
+	for _, f := range c.Funcs {
+		if c.testSupport(f) || c.EntShape().isGenerated(f) {
+			continue
+		}
+		var calls []ssa.CallInstruction
+		for _, b := range f.Blocks {
+			for _, in := range b.Instrs {
+				if ci, ok := in.(ssa.CallInstruction); ok && isWake(ci.Common().StaticCallee()) && len(ci.Common().Args) >= 2 {
+					calls = append(calls, ci)
+				}
+			}
+		}
+		for i, ci := range calls {
+			n++
+			key := fmt.Sprintf("C10.8:announced-to-other-instances:%s#%d@%s", ci.Common().StaticCallee().Name(), i+1, c.Key(top(f)))
+			// what is woken is what this transaction asked for: the ids come from the caller's own values (captured
+			// variables, parameters, rows it loaded), never from package-level state shared between transactions — ids
+			// parked there by a transaction that was rolled back would be woken by the next unrelated commit
+			for ai, a := range ci.Common().Args[1:] {
+				shared := ""
+				chk := func(v ssa.Value) {
+					for k := range sources(v) {
+						if strings.HasPrefix(k, "global:") {
+							shared = strings.TrimPrefix(k, "global:")
+						}
+					}
+				}
+				chk(a)
+				if sl, ok := a.(*ssa.Slice); ok {
+					chk(sl.X)
+				}
+				if shared != "" || ai == 0 {
+					r.Check("C09.9", fmt.Sprintf("C09.9:wake-target-is-the-transactions-own:%s#%d@%s", ci.Common().StaticCallee().Name(), i+1, c.Key(top(f))), ci.Pos(), shared == "", "", "the ids woken after a commit are read from the package-level variable "+shared+", which other transactions write too: a transaction that was rolled back leaves its ids there and the next unrelated commit announces a change that never happened")
+				}
+			}
+			cst, isC := ci.Common().Args[0].(*ssa.Const)
+			if !isC || cst.Value == nil {
+				// handed on from the caller (wake helpers with an onlyInternal parameter of their own)
+				if _, isP := resolve(ci.Common().Args[0]).(*ssa.Parameter); isP {
+					r.OK("C10.8", key, ci.Pos(), "onlyInternal handed on from the caller")
+				} else {
+					r.Undecided("C10.8", key, ci.Pos(), "onlyInternal is computed: the rule needs a constant or a parameter handed on")
+				}
+				continue
+			}
+			if cst.Value.String() != "true" {
+				r.OK("C10.8", key, ci.Pos(), "originating site announces to hooks")
+				continue
+			}
+			receiving := strings.HasPrefix(c.Key(top(f)), "(*services.pgNotifier)")
+			accompanied := false
+			for _, o := range calls {
+				if o == ci {
+					continue
+				}
+				oc, isOC := o.Common().Args[0].(*ssa.Const)
+				if isOC && oc.Value != nil && oc.Value.String() == "false" && o.Common().StaticCallee().Name() == "WakeSubscriptionListeners" && sameOrigin(o.Common().Args[1], ci.Common().Args[1]) && instrDominates(o, ci) {
+					accompanied = true
+				}
+			}
+			if os.Getenv("MB_DEBUG_PROV") != "" && !(receiving || accompanied) {
+				for _, o := range calls {
+					fmt.Fprintf(os.Stderr, "C10.8 dbg %s: %s args1=%v dom=%v\n", c.Key(f), o.Common().StaticCallee().Name(), sources(o.Common().Args[1]), instrDominates(o, ci))
+				}
+			}
+			r.Check("C10.8", key, ci.Pos(), receiving || accompanied, "", "a wake-up for a change made in this process is kept internal (onlyInternal = true): the notifier hooks never hear of it, so a puller waiting in another instance behind this change sleeps until its timeout")
+		}
+	}
+	r.Floor("C10.8", n, 8)
+}
+
+// sameOrigin: the two values derive from a common non-call origin (the same parameter, captured variable or field).
+func sameOrigin(a, b ssa.Value) bool {
+	srcOf := func(v ssa.Value) map[string]bool {
+		out := map[string]bool{}
+		for k := range sources(v) {
+			out[k] = true
+		}
+		// a variadic argument built at the call site: the elements stored into its backing array
+		if sl, ok := v.(*ssa.Slice); ok {
+			if al, ok := sl.X.(*ssa.Alloc); ok && al.Referrers() != nil {
+				for _, u := range *al.Referrers() {
+					if ia, ok := u.(*ssa.IndexAddr); ok && ia.Referrers() != nil {
+						for _, w := range *ia.Referrers() {
+							if st, ok := w.(*ssa.Store); ok {
+								for k := range sources(st.Val) {
+									out[k] = true
+								}
+							}
+						}
+					}
+				}
+			}
+		}
+		return out
+	}
+	sa, sb := srcOf(a), srcOf(b)
+	for k := range sa {
+		if !strings.HasPrefix(k, "call:") && !strings.HasPrefix(k, "const") && sb[k] {
+			return true
+		}
+	}
+	return false
 }
